@@ -61,6 +61,7 @@ class MarkovChain(ABC):
         start_time = time()
         current_time = start_time
         end_time = start_time + run_time
+        steps_taken = 0
 
         while current_time < end_time:
             for i in range(update_interval):
